@@ -47,3 +47,14 @@ Example C14_example :
   merged_ids [("b", 0); ("a", 0); ("c", 1)] = ["a"; "b"; "c"] /\ merge_table [["a"]; ["c"]; ["a"]] = None.
 Proof. vm_compute. auto. Qed.
 Print Assumptions C14_example.
+
+(* BEGIN PINNED FINGERPRINTS (tools/pin_shapes.py) *)
+(* The functions and classes of /repo that hand-written parts of the model mirror (Model/VM.v, NameLevel.v, Loopback.v) and the glue around the modelled core
+   this property is anchored in: the fingerprints (sha256 of the normalised source, comments and docstrings dropped) are regenerated on every run; an edit of one
+   of them re-opens this property even if no sampled case shows a difference.  Rewritten by tools/pin_shapes.py on a tree on which every check passes. *)
+From Connectome Require GlueMergeGen.
+Theorem C14_mirrored_functions_are_the_pinned_ones :
+  GlueMergeGen.shape_class_Merge = "249844d0ee74d228".
+Proof. repeat split; reflexivity. Qed.
+Print Assumptions C14_mirrored_functions_are_the_pinned_ones.
+(* END PINNED FINGERPRINTS *)
